@@ -162,7 +162,7 @@ def checkAml (case impl : List String) : List Fail :=
       | [out, alt, sinks] =>
         let main : List Fail :=
           if out = "panic" then
-            (if model.isSome then [⟨"corr", tag ++ ",C18", "unexpected-panic", "impl panics, model emits"⟩] else [])
+            (if model.isSome then [⟨"corr", tag, "unexpected-panic", "impl panics, model emits"⟩] else [])
           else match hexToBytes out with
             | none => [⟨"corr", tag, "parse", "hex"⟩]
             | some bs =>
